@@ -2731,12 +2731,14 @@ LEAN_OBLIGATIONS.update({
         partial_hypotheses=["rejected case (hint positions sorted, none after the offending token): oracle stream only, no theorem yet"],
     ),
     "C09": dict(
-        modules=["Tumfl.Props.C19", "Tumfl.Props.C05"],
-        obligations=["Tumfl.Props.C09_no_index_error", "Tumfl.Props.C05_rejects_cleanly", "Tumfl.Props.C05_terminates"],
+        modules=["Tumfl.Props.C09", "Tumfl.Props.C19", "Tumfl.Props.C05"],
+        obligations=["Tumfl.Props.C09_lexer_total", "Tumfl.Props.C09_lexer_terminates", "Tumfl.Props.C09_lexer_progress", "Tumfl.Props.C09_parser_errors",
+                     "Tumfl.Props.C09_no_index_error", "Tumfl.Props.C05_rejects_cleanly", "Tumfl.Props.C05_terminates"],
         extractors=["Ladder", "LexTables"],
         tie_names=["T1:Ladder", "T1:LexTables", "T2:parse (error kind, token, hints on every malformed input)"],
-        partial_hypotheses=["proved: no IndexError from the hint stack, string scanner raises only LexerError and terminates; not yet proved: the remaining "
-                            "AssertionError sites of the parser are unreachable, and fuel adequacy of the whole parser (both covered by T2 on the malformed streams)"],
+        partial_hypotheses=["proved: the lexer is total (LexerError or tokens, terminates) for any text; the parser never raises IndexError and every parser failure is a lexer "
+                            "error, a ParserError, one of two AssertionError sites, or fuel exhaustion; NOT yet proved: those two AssertionError sites are unreachable and the "
+                            "parser's fuel suffices (covered by T2:parse on the malformed streams); error positions inside the text: oracle only"],
     ),
     "C20": dict(
         modules=["Tumfl.Props.C16"],
